@@ -26,6 +26,7 @@ func c09(c *Ctx) {
 	// release before the record is deleted, and only what the record lists (shared rules)
 	c05R2(c)
 	c04R5(c)
+	rulePodExist(c, "C09.R6")
 }
 
 func c09R1(c *Ctx) {
